@@ -68,7 +68,7 @@ cpdef bint check_working_hours_fast(
                 # Check for cross-midnight shift
                 if end_minutes <= start_minutes:
                     # Working time: start_minutes <= slot < 1440 OR 0 <= slot < end_minutes
-                    if slot_minutes >= start_minutes or slot_minutes < end_minutes:
+                    if slot_minutes >= start_minutes:
                         return True
                 else:
                     # Normal interval
